@@ -3,6 +3,12 @@ CLAIMS = {
     "C01": ("ast guard extraction + CFG dominance, who-may-write / who-may-call sweeps, def-use provenance of the execution order",
             "Decides on every path of dr.run_components that the execution call and the broker store are guarded by 'not in broker', 'in graph', 'registered'; that Broker.__setitem__ refuses overwrites; that no code outside Broker writes Broker.instances and only run_components executes delegates; that the order handed to run_components is toposort of the same graph; shape of toposort and the dependency closure. Does not decide the topological sort as an algorithm.",
             "DESIGN.md §3 C01"),
+    "C02": ("idiom-normalised predicate recognition, def-use of the argument list (list vs set kinds), guard/dominance order in every process(), class-hierarchy sweep of invoke overrides",
+            "Decides that requirements are classified and flattened in declaration order, that the binder iterates the ordered deps list with results.get, that the missing-dependency predicate is exactly (required absent) + (group with no member present), that every process() checks ignore -> missing -> invoke in that order, that is_enabled guards execution and defaults to True, and that every invoke override reaches the binder or is a frozen convention. Values bound are not decided.",
+            "DESIGN.md §3 C02"),
+    "C03": ("exception-escape rule with benign-call table, except-ladder shadowing via the exception hierarchy, call-site attribution/traceback/gating rules over every add_exception site, CFG must-pass-through (zero-iteration loop edges) for record-before-skip",
+            "Decides that no exception leaves the execution loop or the observer loop, that no handler is shadowed, that every add_exception site records against the failing component (or a registry point of it) with a traceback formatted in the same handler, that skips are recorded only under store_skips, and that every error arm that turns into a skip records on every path. Value equality of unaffected components is not decided.",
+            "DESIGN.md §3 C03"),
 }
 _PENDING = "check under construction in this session; will be claimed (clause-level static rules per DESIGN.md) or declared not applicable with the reason"
 NOT_APPLICABLE = dict(("C%02d" % i, _PENDING) for i in range(1, 21) if "C%02d" % i not in CLAIMS)
